@@ -248,7 +248,7 @@ def run_syn(case):
     with _Builtins(case.get("builtins")):
         try:
             res = v.expand_message(el, state, v.m_, **kwargs)
-            out["result"] = res if isinstance(res, str) else "<%s>" % type(res).__name__
+            out["result"] = _noaddr(res) if isinstance(res, str) else "<%s>" % type(res).__name__
         except Exception as e:
             out["raise"] = type(e).__name__
         try:
@@ -256,8 +256,16 @@ def run_syn(case):
             out["_note_error_ret"] = ret
         except Exception as e:
             out["_note_error_raise"] = type(e).__name__
-    out["errors"] = list(el.errors)
+    out["errors"] = [_noaddr(m) for m in el.errors]
     return out
+
+
+_ADDR = re.compile(r" at 0x[0-9a-fA-F]+>")
+
+
+def _noaddr(text):
+    """`<built-in method items of dict object at 0x7f…>` -> `<built-in method items of dict object>`"""
+    return _ADDR.sub(">", text) if isinstance(text, str) else text
 
 
 # ------------------------------------------------------------------ oracle (spec B transcribed in Python)
@@ -275,19 +283,50 @@ def placeholders(tmpl):
     return [m.group(1) for m in _PH.finditer(tmpl) if m.group(1) is not None]
 
 
-def doc_sources(case):
-    """the five documented sources, in documented order, as dicts"""
+DICT_METHODS = ["clear", "copy", "fromkeys", "get", "items", "keys", "pop", "popitem", "setdefault", "update", "values"]
+LIST_METHODS = ["append", "clear", "copy", "count", "extend", "index", "insert", "pop", "remove", "reverse", "sort"]
+
+
+def _methods(owner, names):
+    # dict.fromkeys is a classmethod: bound to the type
+    return {n: {"method": n, "owner": "type" if n == "fromkeys" else owner} for n in names}
+
+
+def doc_sources(case, quirks=()):
+    """the five documented sources, in documented order, as dicts.  (A dict / list state has its methods as
+    attributes: they are "attributes of state".)
+    quirks: what the two open findings add —
+      "kf_d": the keyword dict's own attributes, right after the keywords;
+      "kf_a": the items of a Mapping element (its children), right before the element's attributes."""
     st = case.get("state") or {}
     kind = st.get("kind")
     sitems = {k: v for k, v in st.get("items", [])} if kind in ("dict", "objdict") else {}
-    sattrs = {k: v for k, v in st.get("attrs", [])} if kind in ("obj", "objdict") else {}
-    return [
-        {k: v for k, v in case.get("kwargs", [])},
-        sitems,
-        sattrs,
-        {k: v for k, v in case.get("vattrs", [])},
-        _attrs(case["chain"][0]),
-    ]
+    if kind in ("obj", "objdict"):
+        sattrs = {k: v for k, v in st.get("attrs", [])}
+    elif kind == "dict":
+        sattrs = _methods("dict", DICT_METHODS)
+    elif kind == "seq":
+        sattrs = _methods("list", LIST_METHODS)
+    else:
+        sattrs = {}
+    e0 = case["chain"][0]
+    out = [{k: v for k, v in case.get("kwargs", [])}]
+    if "kf_d" in quirks:
+        out.append(_methods("dict", DICT_METHODS))
+    out += [sitems, sattrs, {k: v for k, v in case.get("vattrs", [])}]
+    if "kf_a" in quirks and e0["kind"] == "dict":
+        out.append({k: v for k, v in e0.get("items", [])})
+    out.append(_attrs(e0))
+    return out
+
+
+def _text(v):
+    """str() of a case value"""
+    if isinstance(v, dict) and "elem" in v:
+        return v["elem"]
+    if isinstance(v, dict) and "method" in v:
+        return "<built-in method %s of %s object>" % (v["method"], v["owner"])
+    return str(v)
 
 
 def doc_lookup(srcs, key):
@@ -334,12 +373,23 @@ def _count_number(v):
 NORAISE = "<some expansion, no exception>"
 
 
-def expected_syn(case):
-    """(expected text | None when outside the documented domain, reason)"""
+def _catalogue_form(lang, single, plural, idx):
+    """msgstr[idx] of the shipped catalogue's entry for this triple (read from the catalogue itself, not through
+    ngettext's plural rule), or the source form"""
+    cat = translation(lang)._catalog
+    return cat.get((single, idx), single if idx == 0 else plural)
+
+
+def expected_syn(case, quirks=()):
+    """(expected text | None when outside the documented domain, reason).
+    `quirks` = deviations of the open findings to apply (for the class predicates): kf_a, kf_d (lookup),
+    kf_c (the plural form is whatever the locale's ngettext selects, not "singular iff 1")."""
     m = case["msg"]
-    srcs = doc_sources(case)
+    srcs = doc_sources(case, quirks)
     u = mk_u(doc_translator(case, "u"))
-    tr = (lambda x: u(x)) if u else (lambda x: x)
+
+    def tr(x):
+        return u(x) if (u and isinstance(x, str)) else x
     if m["t"] == "plain":
         tmpl = tr(m["s"])
     else:
@@ -347,13 +397,19 @@ def expected_syn(case):
         n = tr(n) if found else None
         num = _count_number(n)
         ndesc = doc_translator(case, "n")
-        if ndesc is not None:
-            ng = mk_n(ndesc)
-            if num is None and "locale" in ndesc:
+        if ndesc is not None and "locale" in ndesc:
+            if num is None:
                 # the count is handed to gettext's ngettext, which accepts numbers only: the documentation still
                 # promises an expansion (the plural form); which text exactly is gettext's business
                 return NORAISE, "gettext's ngettext needs a number"
-            tmpl = ng(m["s"], m["p"], num if num is not None else n)
+            if "kf_c" in quirks:
+                tmpl = mk_n(ndesc)(m["s"], m["p"], num)
+            else:
+                # documented: the singular form exactly when the count is 1
+                tmpl = _catalogue_form(ndesc["locale"], m["s"], m["p"], 0 if num == 1 else 1)
+        elif ndesc is not None:
+            # a user-supplied ungettext: the choice is delegated to it, with the coerced count
+            tmpl = mk_n(ndesc)(m["s"], m["p"], num if num is not None else n)
         else:
             tmpl = tr(m["s"]) if num == 1 else tr(m["p"])
     if not isinstance(tmpl, str) or not fragment_ok(tmpl):
@@ -369,9 +425,16 @@ def expected_syn(case):
         found, v = doc_lookup(srcs, mt.group(1))
         if not found:
             return None, "key %r is not defined by any source" % mt.group(1)
-        out.append(str(tr(v)))
+        out.append(_text(tr(v)))
     out.append(tmpl[pos:])
     return "".join(out), None
+
+
+def expected_errors(case, text):
+    pre = list(case.get("pre_errors", []))
+    m = case["msg"]
+    empty = m["t"] == "plain" and m["s"] == "" and not case.get("callable")
+    return pre if (empty or text in pre) else pre + [text]
 
 
 def oracle_syn(case):
@@ -388,13 +451,10 @@ def oracle_syn(case):
     if obs["result"] != exp:
         fails.append({"clause": "documented-expansion", "expected": exp, "observed": obs["result"]})
     # leftover placeholders: only meaningful when no substituted value / literal carries a '%'
-    vals = [str(v) for s in doc_sources(case) for v in s.values()]
+    vals = [_text(v) for s in doc_sources(case) for v in s.values()]
     if "%(" in (obs["result"] or "") and not any("%" in v for v in vals) and "%%" not in exp_template_text(case):
         fails.append({"clause": "no-leftover-placeholder", "expected": "no %( in result", "observed": obs["result"]})
-    pre = list(case.get("pre_errors", []))
-    m = case["msg"]
-    empty = m["t"] == "plain" and m["s"] == "" and not case.get("callable")
-    want = pre if (empty or exp in pre) else pre + [exp]
+    want = expected_errors(case, exp)
     if obs["errors"] != want:
         fails.append({"clause": "note_error-records-once", "expected": want, "observed": obs["errors"]})
     if obs.get("_note_error_ret") is not False:
@@ -496,8 +556,8 @@ def oracle_builtin(case):
     pre = list(case["c15"].get("pre_errors", []))
     if want is True or msg is None:
         return fails
-    key, extra = msg
-    tmpl = getattr(v, key)
+    keys, extra = msg
+    keys = keys if isinstance(keys, list) else [keys]
     tr = g if g else (lambda x: x)
 
     def val(k):
@@ -506,27 +566,43 @@ def oracle_builtin(case):
         if hasattr(v, k):
             return getattr(v, k)
         return getattr(el, k)
-    if isinstance(tmpl, tuple):
-        single, plural, nkey = tmpl
-        cnt = tr(val(nkey))
-        try:
-            cnt = int(cnt)
-        except (TypeError, ValueError):
-            pass
-        if n:
-            tmpl = n(single, plural, cnt)
-        else:
-            tmpl = tr(single) if cnt == 1 else tr(plural)
-    else:
-        tmpl = tr(tmpl)
 
     class M(dict):
         def __missing__(self, k):
             return tr(val(k))
-    text = tmpl % M()
-    exp = pre if text in pre else pre + [text]
-    if obs["errors"] != exp:
-        fails.append({"clause": "translated-expansion", "expected": exp, "observed": obs["errors"]})
+    candidates = []
+    for key in keys:
+        tmpl = getattr(v, key)
+        by_ngettext = None
+        if isinstance(tmpl, tuple):
+            single, plural, nkey = tmpl
+            cnt = tr(val(nkey))
+            try:
+                cnt = int(cnt)
+            except (TypeError, ValueError):
+                pass
+            if n:
+                # documented: the singular form exactly when the count is 1 — read msgstr[0 | 1] off the catalogue
+                # itself instead of asking the ngettext under test which form it would pick
+                by_ngettext = n(single, plural, cnt)
+                tmpl = _catalogue_form(case["lang"], single, plural, 0 if cnt == 1 else 1)
+            else:
+                tmpl = tr(single) if cnt == 1 else tr(plural)
+        else:
+            cnt = None
+            tmpl = tr(tmpl)
+        text = tmpl % M()
+        candidates.append((pre if text in pre else pre + [text], tmpl, by_ngettext, cnt))
+    if obs["errors"] not in [c[0] for c in candidates]:
+        exp, tmpl, by_ngettext, cnt = candidates[0]
+        f = {"clause": "translated-expansion", "expected": exp, "observed": obs["errors"]}
+        if by_ngettext is not None and by_ngettext != tmpl:
+            alt = by_ngettext % M()
+            f["clause"] = "singular-iff-count-is-one"
+            f["_ngettext_choice"] = pre if alt in pre else pre + [alt]
+            f["_count"] = cnt
+        fails.append(f)
+    tmpl = candidates[0][1]
     for m in obs["errors"][len(pre):]:
         if "%(" in m and "%(" not in "".join(str(val(k)) for k in placeholders(tmpl)):
             fails.append({"clause": "no-leftover-placeholder", "expected": "no %( left", "observed": m})
@@ -569,6 +645,7 @@ def builtin_scenarios():
         ("HasAtMost.failure/zero", {"cls": "HasAtMost", "maximum": 0}, lst(1)),
         ("HasBetween.exact/singular", {"cls": "HasBetween", "minimum": 1, "maximum": 1}, lst(2)),
         ("HasBetween.exact/plural", {"cls": "HasBetween", "minimum": 2, "maximum": 2}, lst(0)),
+        ("HasBetween.exact/zero", {"cls": "HasBetween", "minimum": 0, "maximum": 0}, lst(1)),
         ("HasBetween.range/singular", {"cls": "HasBetween", "minimum": 0, "maximum": 1}, lst(3)),
         ("HasBetween.range/plural", {"cls": "HasBetween", "minimum": 1, "maximum": 3}, lst(5, "Array")),
         ("SetWithKnownFields.unexpected", {"cls": "SetWithKnownFields"}, dct({"t": "dict", "pairs": [["a", "1"], ["z", "2"], ["q", "3"]]})),
@@ -601,6 +678,7 @@ def rand_builtin(rng, c15case=None):
             if want is False:
                 break
         c15case = c
+    c15case["v"].pop("messages", None)  # overridden templates are not in the catalogues: C15's stream covers them
     place = rng.choice(PLACES)
     lang = rng.choice(LANGS + LANGS + [None])
     return {"k": "builtin", "c15": c15case, "lang": lang, "place": place, "with_n": rng.random() < 0.7}
@@ -618,6 +696,12 @@ def used_keys(case):
     return ks
 
 
+def _shadowed(case, shadow_keys, before):
+    """used keys that are in `shadow_keys` and that none of the documented sources `before` defines"""
+    srcs = doc_sources(case)[:before]
+    return {k for k in used_keys(case) if k in shadow_keys and not any(k in s for s in srcs)}
+
+
 def in_class_kf_a(case):
     """Mapping element whose child is called like a key the message uses, and no earlier source
     (keywords, state, validator) defines that key"""
@@ -626,9 +710,48 @@ def in_class_kf_a(case):
     e0 = case["chain"][0]
     if e0["kind"] != "dict":
         return False
-    items = {k for k, _ in e0.get("items", [])}
-    srcs = doc_sources(case)[:4]
-    return any(k in items and not any(k in s for s in srcs) for k in used_keys(case))
+    return bool(_shadowed(case, {k for k, _ in e0.get("items", [])}, 4))
+
+
+def in_class_kf_d(case):
+    """the message uses a key that is the name of a dict method and the note_error keywords do not define it"""
+    if case.get("k") != "syn":
+        return False
+    return bool(_shadowed(case, set(DICT_METHODS), 1))
+
+
+def predicted_by_findings(case):
+    """what the open lookup findings predict for this case: the documented expansion with the child's .u (KF-C16-a)
+    / the keyword dict's bound method (KF-C16-d) substituted for exactly the shadowed keys.
+    -> (finding id, text) or None"""
+    quirks = []
+    if in_class_kf_a(case):
+        quirks.append("kf_a")
+    if in_class_kf_d(case):
+        quirks.append("kf_d")
+    if not quirks:
+        return None
+    text, _ = expected_syn(case, tuple(quirks))
+    if text is None or text == NORAISE:
+        return None
+    return ("KF-C16-a" if "kf_a" in quirks else "KF-C16-d"), text
+
+
+def in_class_kf_c(case):
+    """a built-in plural message under the French catalogue's own ngettext (plural=(n > 1)) with a count n <= 0:
+    gettext selects msgstr[0], which spells "un(e)" instead of substituting the count"""
+    if case.get("k") != "builtin" or case.get("lang") != "fr" or not case.get("with_n", True):
+        return False
+    v = case["c15"]["v"]
+    if v["cls"] == "HasAtLeast":
+        cnt = v.get("minimum", 1)
+    elif v["cls"] == "HasAtMost":
+        cnt = v.get("maximum", 1)
+    elif v["cls"] == "HasBetween":
+        cnt = v.get("minimum", 1) if v.get("minimum", 1) == v.get("maximum", 1) else v.get("maximum", 1)
+    else:
+        return False
+    return isinstance(cnt, int) and cnt <= 0
 
 
 def in_class_kf_b(case):
@@ -748,6 +871,11 @@ def rand_syn(rng):
     if r < 0.08:
         e0["kind"] = "list"
         e0["attrs"] = [["name", name], ["label", label]]
+    elif r < 0.14:
+        # a Mapping element whose children are NOT named like message keys (outside the KF-C16-a class)
+        e0["kind"] = "dict"
+        e0["items"] = [[n, {"elem": rng.choice(["c", ""])}] for n in rng.sample(["zz", "child", "k9"], rng.randint(1, 2))]
+        e0["attrs"] = [["name", name], ["label", label]]
     # sources
     for src in SOURCES:
         for k in keys:
@@ -828,7 +956,7 @@ def rand_syn(rng):
     sanitize(c)
     if rng.random() < 0.15:
         exp, _ = expected_syn(c)
-        if exp is not None:
+        if exp is not None and exp != NORAISE and "<built-in method" not in exp:
             c["pre_errors"] = rng.choice([[exp], ["other", exp], ["other"]])
     return c
 
@@ -842,6 +970,8 @@ def sanitize(c):
                 m[form] = m[form].replace("%(value)s", "%(label)s").replace("%(u)s", "%(name)s")
         if m.get("n") in ("value", "u"):
             m["n"] = "cnt"
+    # the repr of a bound method carries an address that differs from call to call: no dedup to observe
+    c["pre_errors"] = [m for m in c.get("pre_errors", []) if "<built-in method" not in m]
     if c["chain"][0]["kind"] == "dict":
         # a child *element* handed to real gettext is unhashable (part of KF-C16-a, not modelled): keep the
         # shipped catalogues away from Mapping elements with children
@@ -859,6 +989,19 @@ def sanitize(c):
         b = c.get("builtins") or {}
         if isinstance(b.get("u"), dict):
             b["u"] = {"v": detag(b["u"]["v"])}
+
+        def detag_n(t):
+            return {"tag": "M", "rule": "ne1"} if isinstance(t, dict) and "locale" in t else t
+        for key in ("n_attr", "n_item"):
+            if isinstance(st.get(key), dict):
+                st[key] = {"v": detag_n(st[key]["v"])}
+        for e in c["chain"]:
+            if isinstance(e.get("n_inst"), dict):
+                e["n_inst"] = {"v": detag_n(e["n_inst"]["v"])}
+            if "n_cls" in e:
+                e["n_cls"] = detag_n(e["n_cls"])
+        if isinstance(b.get("n"), dict):
+            b["n"] = {"v": detag_n(b["n"]["v"])}
     return c
 
 
@@ -869,11 +1012,32 @@ def hostile_syn(rng):
 def _hostile_syn(rng):
     c = rand_syn(rng)
     r = rng.random()
-    if r < 0.2:
+    if r < 0.17:
         c["msg"] = {"t": "plain", "s": rng.choice(["100%", "%(label", "%(label)", "%(a(b)c)s", "%(a(b)s", "%%(label)s",
                                                      "%(nosuch)s", "%(label)s %(nosuch)s", "", "%()s", "%(label)s%"])}
-    elif r < 0.4:
+    elif r < 0.3:
         c["state"] = {"kind": "seq", "items": [], "attrs": []}
+        if rng.random() < 0.3:
+            c["msg"] = {"t": "plain", "s": "%%(%s)s/%%(label)s" % rng.choice(LIST_METHODS)}
+    elif r < 0.46:
+        # keys that are names of dict methods (KF-C16-d when the keywords do not define them): defined by a random
+        # subset of the other sources
+        keys = rng.sample(DICT_METHODS, rng.randint(1, 2))
+        c["msg"] = {"t": "plain", "s": " ".join("%%(%s)s" % k for k in keys) + " %(label)s"}
+        for k in keys:
+            for src in ("kwargs", "sitem", "sattr", "vattr", "eattr"):
+                if rng.random() < 0.35:
+                    v = "%s-%s" % (src, k)
+                    if src == "kwargs":
+                        c["kwargs"].append([k, v])
+                    elif src == "vattr":
+                        c["vattrs"].append([k, v])
+                    elif src == "eattr":
+                        c["chain"][0]["attrs"].append([k, v])
+                    else:
+                        if c["state"] is None or c["state"]["kind"] not in ("objdict",):
+                            c["state"] = {"kind": "objdict", "items": [], "attrs": []}
+                        c["state"]["items" if src == "sitem" else "attrs"].append([k, v])
     elif r < 0.6:
         # Mapping element with children named like message keys (KF-C16-a)
         names = rng.sample(["label", "name", "k1", "cnt", "zz"], rng.randint(1, 3))
@@ -898,15 +1062,17 @@ class C16(Property):
     title = "validation messages expand completely under every lookup source and locale"
     proof_module = "Proofs.C16"
     theorems = ["Flatland.C16.Proofs." + t for t in (
-        "priority_partial", "priority_first_defined", "priority_none_defined", "C16_full_fails",
+        "priority_partial", "priority_patterns", "C16_full_fails", "C16_full_fails_kwargs",
         "plural_choice", "plural_missing_count", "ungettext_receives_count",
-        "findTransformer_eq_spec", "transformer_full", "translator_applied",
+        "de_singular_iff_one", "es_singular_iff_one", "plural_locale_full_fails",
+        "findTransformer_eq_spec", "translator_applied",
         "expand_plain_refines", "expand_plural_refines",
         "expand_total", "no_percent_left", "expandMessage_ok_expansion",
-        "builtin_expand_total", "catalogue_expand_total")]
+        "builtin_expand_total", "builtin_placeholders_in_scope", "catalogue_expand_total",
+        "catalogue_no_leftover", "builtin_no_leftover")]
     generated_obligations = ["Flatland.C16.Proofs." + t for t in (
         "catalogues_listed", "catalogue_placeholders", "catalogue_complete", "builtin_keys_supplied",
-        "builtin_no_escape")]
+        "builtin_no_escape", "fr_singular_drops_count")]
     quick_n = 100000
     thorough_n = 600000
     trusted_base = [
@@ -917,7 +1083,9 @@ class C16(Property):
         "attribute lookup on real objects (instance over class attributes) is Python's; the model is told the resolved attributes of the case",
     ]
     assumptions = [
-        "keys used in templates are drawn from a pool that avoids attributes the harness does not describe (dict methods on the keyword dict / a dict state, Element API names other than label/name/value/u)",
+        "with a user-supplied ungettext the choice of the plural form is delegated to it (documented); 'singular iff count = 1' is checked without an ungettext and against the shipped catalogues' own msgstr[0|1] (KF-C16-c for fr)",
+        "spec B resolves instance-over-class attributes per element along the ancestry (Python attribute lookup); the docstring of find_transformer lists 'element or parents' before 'their schemas' — the property text (nearest ancestor) is what B states",
+        "keys used in templates are drawn from a pool that avoids attributes the harness does not describe (dunder attributes of dict/list targets, Element API names other than label/name/value/u); the public methods of the keyword dict and of dict/list states are modelled",
         "`.value`/`.u` of container elements are kept out of generated templates",
     ]
     level_text = "proof"
@@ -928,7 +1096,7 @@ class C16(Property):
     rule = ("synthetic validators: each of 8 keys defined by a random subset of the five documented sources with distinct values; plain and plural "
             "messages with counts from {0,1,2,5,-1,'1',' 1 ','+1','01','1_0',True,False,None,100,non-numbers}; translators (tagging, table, None) "
             "and the shipped catalogues' gettext/ngettext placed on state attr/item, element instance/class, up to 3 ancestors, builtins; hostile stream: malformed templates, list state, "
-            "Mapping element with children named like keys, non-numeric counts, unsupported conversions.  Exhaustive: all 2^5 definedness "
+            "Mapping element with children named like keys, keys that are names of dict/list methods, non-numeric counts, unsupported conversions.  Exhaustive: all 2^5 definedness "
             "patterns x {fresh key, label} x {no translator, builtins translator}.  Built-in stream: every failing built-in validator scenario x "
             "{source,de,es,fr} x translator placement.  non-trivial = an expansion was produced and the message uses at least one key")
     exhaustive_note = ("all 2^5 patterns of which documented source defines the key, for a fresh key and for `label`, with and without a builtins "
@@ -956,10 +1124,33 @@ class C16(Property):
         c = copy.deepcopy(c)
         c["state"] = {"kind": "dict", "items": [], "attrs": [], "n_item": {"v": {"tag": "N", "rule": "ne1"}}}
         out.append(c)
+        # open KF-C16-d: a validator attribute called `items` is shadowed by the keyword dict's own method
+        c = base_case()
+        c["msg"] = {"t": "plain", "s": "%(items)s"}
+        c["vattrs"] = [["items", "VALIDATOR-ATTR"]]
+        out.append(c)
+        # …and is fine when the keywords define it
+        c = copy.deepcopy(c)
+        c["kwargs"] = [["items", "kw"]]
+        out.append(c)
+        # audit rev3a C16-2: a Mapping element in the KF-C16-a class whose message also uses a key that keywords and
+        # state both define — only the child substitution may be filed under KF-C16-a
+        c = base_case()
+        c["chain"][0] = {"kind": "dict", "attrs": [["name", "d"], ["label", "d"]], "items": [["label", {"elem": "child"}]]}
+        c["msg"] = {"t": "plain", "s": "%(label)s %(k1)s"}
+        c["kwargs"] = [["k1", "kw-k1"]]
+        c["state"] = {"kind": "dict", "items": [["k1", "si-k1"]], "attrs": []}
+        out.append(c)
         # open KF-C16-b (residual): the same count handed to real gettext's ngettext
         c = copy.deepcopy(c)
         c["state"]["n_item"] = {"v": {"locale": "de"}}
         out.append(c)
+        # open KF-C16-c: French catalogue, count 0
+        from harness.props import c15
+        for label, cc in builtin_scenarios():
+            if label in ("HasAtMost.failure/zero", "HasBetween.exact/zero"):
+                out.append({"k": "builtin", "c15": c15.finish(copy.deepcopy(cc)), "lang": "fr", "place": "state-dict",
+                            "with_n": True, "label": label})
         return out
 
     def exhaustive(self, tier):
@@ -1026,11 +1217,21 @@ class C16(Property):
         return []
 
     def classify(self, case, failure):
+        """A failure belongs to an open finding only if the OBSERVED text is exactly what that finding predicts;
+        an exception is never filed under a lookup finding."""
         cl = failure.get("clause")
-        if in_class_kf_a(case) and cl in ("documented-expansion", "note_error-records-once", "expands-without-error"):
-            return "KF-C16-a"
+        if case.get("k") == "syn" and cl in ("documented-expansion", "note_error-records-once"):
+            pred = predicted_by_findings(case)
+            if pred is not None:
+                fid, text = pred
+                want = text if cl == "documented-expansion" else expected_errors(case, text)
+                if failure.get("observed") == want:
+                    return fid
         if in_class_kf_b(case) and cl == "expands-without-error" and failure.get("observed") == "TypeError":
             return "KF-C16-b"
+        if in_class_kf_c(case) and cl == "singular-iff-count-is-one" and \
+                failure.get("observed") == failure.get("_ngettext_choice"):
+            return "KF-C16-c"
         return None
 
     def nontrivial(self, case, obs):
